@@ -482,7 +482,9 @@ func CountSpace(yield func(t *regexref.Expr, family string)) {
 			quants = append(quants, fmt.Sprintf("{%d,%d}", n, m))
 		}
 	}
-	for _, body := range []string{"a", "(ab)", "[ab]", "(a?)", "(a|bc)"} {
+	// (the last bodies begin with a repeatable part and have branches that are prefixes of one another or an optional
+	// tail: their automata have an edge back into the start state and an edge out of an accepting state)
+	for _, body := range []string{"a", "(ab)", "[ab]", "(a?)", "(a|bc)", "(a*b)", "(ab*)", "(a*b|a*bc)", "(a+b?)", "(b*a|b*ac)"} {
 		for _, q := range quants {
 			for _, form := range []string{"%s%s", "b%s%sc", "%s%s?a"} {
 				text := fmt.Sprintf(form, body, q)
